@@ -375,6 +375,10 @@ func (r *Run) Finish() {
 
 	if os.Getenv("VERIF_REPLAY") == "" {
 		dir := filepath.Join(Root(), "evidence")
+		if os.Getenv("VERIF_REPO") != "" && os.Getenv("VERIF_TMP") != "" {
+			// development run against a scratch worktree: never overwrite the evidence of /repo
+			dir = filepath.Join(os.Getenv("VERIF_TMP"), "evidence")
+		}
 		_ = os.MkdirAll(dir, 0o755)
 		b, _ := json.MarshalIndent(out, "", " ")
 		tmp := filepath.Join(dir, "."+r.ID+".json.tmp")
